@@ -385,8 +385,18 @@ func genFont(rng *rand.Rand, o *fontOpts) *type1.Font {
 	}
 
 	// creation time
-	switch rng.IntN(6) {
+	switch rng.IntN(8) {
 	case 0:
+	case 6:
+		// local mean time and other offsets that are not whole minutes or quarter hours
+		off := []int{3208, -3208, 1, -1, 59, 3599, 20700, -12600, 45296, -43199}[rng.IntN(10)]
+		f.CreationDate = time.Date(1880+rng.IntN(200), time.Month(1+rng.IntN(12)), 1+rng.IntN(28), rng.IntN(24), rng.IntN(60), rng.IntN(60), 0, time.FixedZone([]string{"LMT", "", "XST"}[rng.IntN(3)], off))
+		o.f("creation time in a zone whose offset has seconds")
+	case 7:
+		// zone names which are not customary abbreviations
+		name := []string{"x", "Local", "UTC+5", "ABCDE", "AB", "A B", "-0330", "+0300", "Europe/Berlin", "ÄST", "mst", "A", "ABCDEFG", "GMT+2", "ChST", "WITA", "(Z)", "%"}[rng.IntN(18)]
+		f.CreationDate = time.Date(1990+rng.IntN(60), time.Month(1+rng.IntN(12)), 1+rng.IntN(28), rng.IntN(24), rng.IntN(60), rng.IntN(60), 0, time.FixedZone(name, (rng.IntN(25)-12)*3600))
+		o.f("creation time in a zone with an unusual name")
 	case 1:
 		f.CreationDate = time.Date(2000+rng.IntN(40), time.Month(1+rng.IntN(12)), 1+rng.IntN(28), rng.IntN(24), rng.IntN(60), rng.IntN(60), rng.IntN(1e9), time.UTC)
 	case 2:
